@@ -23,7 +23,7 @@
 #elif defined(__GNUC__) || defined(__clang__)
 #include <complex.h>
 #define A_COMPLEX A_Complex
-__extension__ typedef _Complex A_REAL A_COMPLEX;
+__extension__ typedef _Complex A_REAL A_COMPLEX __attribute__((__may_alias__));
 #else /* !A_REAL_TYPE */
 #if A_PREREQ_GNUC(2, 95) || __has_warning("-Waggregate-return")
 #pragma GCC diagnostic ignored "-Waggregate-return"
